@@ -99,6 +99,7 @@ type sgen struct {
 	enums        []*enumRef
 	hist         func(string)
 	seq          int
+	mapValue     bool // the type being chosen is a map value
 	edFileClosed bool // the editions file under construction has enum_type = CLOSED as file default
 }
 
@@ -211,6 +212,10 @@ func (c *mctx) fieldName() string {
 func (g *sgen) enumsFor(syntax string) []*enumRef {
 	var out []*enumRef
 	for _, e := range g.enums {
+		// protoc: an enum used as a map value must define 0 as its first value
+		if g.mapValue && e.d.Value[0].GetNumber() != 0 {
+			continue
+		}
 		// proto3 files may not use closed (proto2) enums
 		if syntax == "proto3" && e.closed {
 			continue
@@ -487,7 +492,9 @@ func (c *mctx) mapField(keyType descriptorpb.FieldDescriptorProto_Type, valMsg s
 		v.TypeName = proto.String(valMsg)
 	} else {
 		sub := &mctx{g: g, syntax: c.syntax, full: c.full, md: c.md, usedNums: map[int32]bool{}, ref: c.ref}
+		g.mapValue = true
 		sub.setType(v, true)
+		g.mapValue = false
 	}
 	if c.syntax == "editions" && g.r.Intn(4) == 0 &&
 		(keyType == descriptorpb.FieldDescriptorProto_TYPE_STRING || v.GetType() == descriptorpb.FieldDescriptorProto_TYPE_STRING) {
